@@ -86,7 +86,7 @@ fn blocked(w: &World, a: usize, b: usize) -> bool {
 
 /// C14 on one leg of an atomic handshake: `reply` was computed by the sender from the digest the
 /// receiver put on the wire (`req_digest`), and processed by the unchanged receiver.
-fn check_agreement(w: &mut World, recv: usize, send: usize, req_digest: &[codec::WDigestEntry], reply: &WMsg, send_pre: &BTreeMap<usize, (u64, u64)>, send_sched: &BTreeSet<usize>, recv_pre: &BTreeMap<usize, CopyS>, leg: &str) {
+fn check_agreement(w: &mut World, recv: usize, send: usize, req_digest: &[codec::WDigestEntry], reply: &WMsg, reply_len: usize, send_pre: &BTreeMap<usize, (u64, u64)>, send_sched: &BTreeSet<usize>, recv_pre: &BTreeMap<usize, CopyS>, leg: &str) {
     let Ok(nodes) = codec::group_ops(codec::msg_ops(reply)) else { return };
     let post = frontiers(w, recv);
     let mut in_reply: BTreeSet<usize> = BTreeSet::new();
@@ -98,7 +98,11 @@ fn check_agreement(w: &mut World, recv: usize, send: usize, req_digest: &[codec:
             continue;
         };
         if nd.kvs.is_empty() && !nd.had_set_max {
-            // the budget ran out right after the member header: nothing was offered ("space permitting")
+            // the budget ran out right after the member header: nothing was offered ("space permitting") — which cannot
+            // be the reason when every value of the trace is a few bytes long and the reply is far below the limit
+            if !w.cfg.big_values && reply_len < 60_000 {
+                w.fail(&["C14", "C01"], "agree.nothing_offered", format!("{leg}: slot{send} is ahead of the receiver for member{x} (receiver advertised (gc {}, mv {})) but its reply of {reply_len} bytes carries a bare header for it: neither an entry nor the max version, although there is room", r0.0, r0.1));
+            }
             w.stats.inc("c14_node_deltas_cut_to_nothing");
             continue;
         }
@@ -170,7 +174,7 @@ pub fn monitored_handshake(w: &mut World, a: usize, b: usize) {
     let synack_w = codec::decode_msg(&synack).ok().map(|x| x.0);
     let ack = w.process(a, b, &synack);
     if let (Some(WMsg::Syn { digest, .. }), Some(sa)) = (&syn_w, &synack_w) {
-        check_agreement(w, a, b, digest, sa, &b_after_syn, &sched_b, &a_copies_pre, "SYN-ACK");
+        check_agreement(w, a, b, digest, sa, synack.len(), &b_after_syn, &sched_b, &a_copies_pre, "SYN-ACK");
     }
     let a_after_synack = frontiers(w, a);
     if let Some(ack) = ack {
@@ -178,7 +182,7 @@ pub fn monitored_handshake(w: &mut World, a: usize, b: usize) {
         let _ = w.process(b, a, &ack);
         if let (Some(WMsg::SynAck { digest, .. }), Some(ak)) = (&synack_w, &ack_w) {
             let sched_a_now = sched_a.clone();
-            check_agreement(w, b, a, digest, ak, &a_after_synack, &sched_a_now, &b_copies_after_syn, "ACK");
+            check_agreement(w, b, a, digest, ak, ack.len(), &a_after_synack, &sched_a_now, &b_copies_after_syn, "ACK");
         }
     }
     w.stats.inc("monitored_handshakes");
